@@ -221,6 +221,12 @@ func (operation *Operation) Validate(ctx context.Context, opts ...ValidationOpti
 		}
 	}
 
+	if v := operation.Servers; v != nil {
+		if err := v.Validate(ctx); err != nil {
+			return fmt.Errorf("invalid servers: %w", err)
+		}
+	}
+
 	callbackNames := make([]string, 0, len(operation.Callbacks))
 	for name := range operation.Callbacks {
 		callbackNames = append(callbackNames, name)
